@@ -89,7 +89,7 @@ func genNSchema(r *vh.Rand, env EnumEnv, kind string, depth int, counter *int) N
 			continue
 		}
 		gd := genProp04(r, name, env)
-		for gd.Class == "compile-error" || readerFails(gd.P) || (kind == "oneof" && (gd.P.PK != PSingle || gd.P.Opt)) ||
+		for refused(gd.Class) || readerFails(gd.P) || (kind == "oneof" && (gd.P.PK != PSingle || gd.P.Opt)) ||
 			(gd.P.T.Kind == TEnum && env.Unspecified != "" && env.Unspecified != "UNSPECIFIED" && env.Unspecified != env.Prefix+"UNSPECIFIED") {
 			gd = genProp04(r, name, env)
 		}
